@@ -52,8 +52,9 @@ DevNames == {"StripWd",       \* F-C02-1 body without withdrawals accepted whate
 DevsPinned == {"StripWd", "TrustSource", "NilWdPanic", "NumKeyPrefix", "NonCanon", "SlotIndexPanic"}    \* the code at the pinned commit, before the fix: commits
 DevsToday == {}                                                                                          \* the repaired tree (KNOWN_FINDINGS.json: all six fixed)
 
-\* "no withdrawals" and "the empty withdrawals list" denote the same withdrawals; a pre-Shanghai header has no root at all
-WdMatch(bw, hw) == bw = hw \/ (bw \in {NONE, EMPTY} /\ hw \in {NONE, EMPTY})
+\* a body without a withdrawals list (legacy encoding) and a body with the EMPTY list (Shanghai encoding) are different byte strings with different
+\* root sets: the first belongs to a header without a withdrawals root, the second to a header whose root is the empty-list root (sweep mutant D/01-C02)
+WdMatch(bw, hw) == bw = hw
 
 \* ------------------------------------------------------------------------------------------------ P level
 Bound(kv, cv) ==
